@@ -150,7 +150,11 @@ Inner(i) == {sh \in Shapes(i) : ~(Len(sh) = 1 /\ sh[1].dop.k = "demfield")}
 PickC1 == \/ \E a \in Shapes(1) : Pick(D(<<SID>> \o a))
           \/ Pick(D(<<SID, TabKey("k1", 3, Tab1), TabStruct("t1", 1, Tab1, "k1")>>))
 PickC2 == \E a \in Inner(1), b \in Shapes(2) : Pick(D(<<SID>> \o a \o b))
-PickC3 == \E a \in Inner(1), b \in Inner(2), c \in Shapes(3) : Pick(D(<<SID>> \o a \o b \o c))
+\* a field that reads to the end of the PDU must not start in front of (or inside) an object placed earlier: with three
+\* shapes the middle one is not positioned explicitly when a greedy field is around (it could jump backwards)
+Greedy(ps) == \E i \in 1..Len(ps) : ps[i].dop.k \in {"eopfield", "demfield"}
+PickC3 == \E a \in Inner(1), b \in Inner(2), c \in Shapes(3) :
+             ~(Greedy(a \o b \o c) /\ \E i \in 1..Len(b) : b[i].bp >= 0) /\ Pick(D(<<SID>> \o a \o b \o c))
 
 \* quick: as first of two shapes only those that change the context of what follows (origin, cursor, keys, claims)
 Ctx(i) == {sh \in Inner(i) : \/ sh[1].dop.k \in {"struct", "sfield", "dlfield", "demfield", "mux"}
